@@ -201,16 +201,16 @@ class Runner:
                "--cfg=smpi/async-small-thresh:%d" % p["thresh"], "--cfg=smpi/send-is-detached-thresh:%d" % p["det"],
                "--log=root.thres:critical", self.plat, sf]
         try:
-            for attempt in range(30):
+            for attempt in range(180):
                 try:      # the shared build may be relinking smpimain/libsimgrid right now (another check's ninja): retry
                     q = subprocess.run(cmd, capture_output=True, text=True, timeout=timeout, env=self.env, cwd=self.dir)
                     if q.returncode == 127 or "error while loading shared libraries" in q.stderr:
                         raise OSError(q.stderr[-200:])
                     break
                 except OSError:
-                    if attempt == 29:
+                    if attempt == 179:
                         raise core.InfraError("cannot execute smpimain")
-                    time.sleep(2)
+                    time.sleep(5)
             rc, out, err = q.returncode, q.stdout, q.stderr
         except subprocess.TimeoutExpired:
             rc, out, err = -999, "", "TIMEOUT"
